@@ -210,7 +210,12 @@ def property_far(ant, src_seed, th, ph, nlam, pwr):
     big = max(ft, fp)
     if big == 0:
         return None
-    if abs(et - ft) > 0.02 * big or abs(ep - fp) > 0.02 * big:
+    # the reported far field adds one term per half pulse, the near field integrates along the segments: per pulse the two differ by
+    # at most (k Δ)²/24 (theorem C10_exact_integral_partial) — 0.5 % at λ/18, but a two-sided taper can end in a segment of a
+    # quarter wavelength
+    dmax = max(float(sg.seg_len) for g in m.geo for sg in g.segments)
+    tol = 0.02 + (2 * math.pi * dmax / m.wavelen) ** 2 / 24
+    if abs(et - ft) > tol * big or abs(ep - fp) > tol * big:
         return 'at %g wavelengths (theta=%g, phi=%g) |E_theta|, |E_phi| = %.5g, %.5g but the far field reports %.5g, %.5g' % (nlam, th, ph, et, ep, ft, fp)
     en, hn = np.linalg.norm(e), np.linalg.norm(h)
     # radial parts are measured against the pattern maximum at this distance, as the other tolerances of the far field are: the
